@@ -189,6 +189,16 @@ def rule_init(R):
             if subj[0] == "bin" and subj[1] == "Eq" and any(x[0] == "downcast" and x[2] == "ReceiveMaximum" for x in walk(subj)) \
                     and any(x[0] == "const" and x[2] == 0 for x in (subj[2], subj[3])):
                 te, fe = si["edges"].get(True), si["edges"].get(False)
+            elif subj[0] == "bin" and subj[1] in ("Lt", "Le", "Gt", "Ge") and any(x[0] == "downcast" and x[2] == "ReceiveMaximum" for x in walk(subj)):
+                # `max < 1`, `max <= 0`, `1 > max`, `0 >= max`: for an unsigned value all mean `max == 0`
+                a_, b_ = peel(subj[2]), peel(subj[3])
+                op_ = subj[1]
+                if a_[0] == "const":
+                    a_, b_, op_ = b_, a_, {"Lt": "Gt", "Gt": "Lt", "Le": "Ge", "Ge": "Le"}[op_]
+                if b_[0] == "const" and ((op_ == "Lt" and b_[2] == 1) or (op_ == "Le" and b_[2] == 0)):
+                    te, fe = si["edges"].get(True), si["edges"].get(False)
+                elif b_[0] == "const" and ((op_ == "Ge" and b_[2] == 1) or (op_ == "Gt" and b_[2] == 0)):
+                    te, fe = si["edges"].get(False), si["edges"].get(True)
             elif chain(subj)[1][-2:] == ["@ReceiveMaximum", "0"] and any(k_ == 0 and not isinstance(k_, bool) for k_ in si["edges"]):
                 # `Property::ReceiveMaximum(0) => return Err(..)`: a match on the value itself
                 te = [t_ for k_, t_ in si["edges"].items() if k_ == 0 and not isinstance(k_, bool)][0]
